@@ -1,5 +1,6 @@
 import StraxModel.Driver.Parse
 import StraxModel.Model.Overlap
+import StraxModel.Model.OverlapDecl
 namespace Strax.Driver
 open Strax Strax.Overlap
 
@@ -119,6 +120,15 @@ def handleC09 : List String → Option String
       if fs.length > 1 then showExcept c09ShowDicts res
       else showExcept (fun (outs : List Chunk) => if outs.isEmpty then "-" else " ".intercalate (outs.map c09ShowChunk)) res1
     pure out
+  | ["c09.getwin", decl] => do                 -- `_get_window_size` alone on a declared window form
+    let d ← c09ParseDecl decl
+    pure <| showExcept (fun (w : Int × Int) => s!"{w.1} {w.2}") (windowResult d)
+  | "c09.bounds" :: comps :: wl :: wr :: cs => do   -- (invalid_beyond, cache_inputs_beyond) of every `do_compute` call
+    let wl ← wl.toInt?; let wr ← wr.toInt?
+    let fs ← (comps.splitOn ",").mapM (c09Comp wl wr)
+    let cs ← cs.mapM (c09ParseChunk "d0" "k0")
+    pure <| showExcept (fun (bs : List (Int × Int)) => if bs.isEmpty then "-" else " ".intercalate (bs.map fun b => s!"{b.1}:{b.2}"))
+      (Overlap.mapE (·.mk') cs >>= fun cs => runBounds (c09Spec true wl wr fs) "k0" cs)
   | ["c09.whole", comp, wl, wr, rows] => do
     let wl ← wl.toInt?; let wr ← wr.toInt?
     let f ← c09Comp1 wl wr comp
